@@ -200,7 +200,6 @@ def rule_actual(field, ret, cps):
             k = m and (m.group(1)[0].upper() + m.group(1)[1:])
             if not (m and k in KINDS): raise SystemExit('MockActualCall_c.%s: no naming rule' % field)
             f.callee = 'MockActualCall_return%sValue' % k; f.result = ('getter', k)
-        if k == 'FunctionPointer': f.skip = 'returns a function pointer: the emitter has no prototype rule for "void (*f())()"'
     return f
 
 def rule_support(field, ret, cps):
@@ -283,9 +282,12 @@ MANUAL_PROTOS = {
     # functions returning a function pointer: the emitter has no prototype rule; the declaration is written by hand
     # (through a typedef: CBMC does not attach contract clauses to the declarator form `void (*f(args))()`)
     'MockNamedValue_getFunctionPointerValue': 'c19_fptr_t MockNamedValue_getFunctionPointerValue(const struct MockNamedValue *self)',
+    'MockActualCall_returnFunctionPointerValue': 'c19_fptr_t MockActualCall_returnFunctionPointerValue(struct MockActualCall *self)',
 }
 
 def split_proto_params(pr):
+    mfp = re.match(r'^.*?\(\*\s*\w+\((.*)\)\)\s*\([^()]*\)$', pr)       # function returning a pointer to function
+    if mfp: pr = 'x(' + mfp.group(1) + ')'
     depth = 0; groups = []; start = None
     for k, ch in enumerate(pr):
         if ch == '(':
@@ -505,6 +507,22 @@ def gen():
             ens.append('%s == %s      /* chained: the next entry point continues on what the C++ method returned */' % (RECV[f.chain][1], NEXT[f.chain]))
         for s_ in STATICS:
             if not f.chain or s_ != RECV[f.chain][1]: ens.append('%s == __CPROVER_old(%s)' % (s_, s_))
+        fp_form = isinstance(f.result, tuple) and f.result[1] == 'FunctionPointer'
+        if fp_form:
+            # CBMC does not attach contract clauses to the declarator form `void (*f(args))()`: same statement as a harness
+            # (preconditions assumed, postconditions asserted around the real body)
+            h = ['void verif_harness(void)', '{']
+            for t_, n_ in f.cparams: h.append('  void (*%s)();' % n_)
+            h.append('  __CPROVER_assume(C19_START%s);' % (' && C19_COHERENT' if f.result[0] == 'ordefault' else ''))
+            for s_ in STATICS: h.append('  void *old_%s = (void *)%s;' % (s_, s_))
+            h.append('  void (*r)() = %s(%s);' % (f.impl, ', '.join(n_ for t_, n_ in f.cparams)))
+            for e in ens:
+                e2 = re.sub(r'__CPROVER_old\((\w+)\)', r'old_\1', e.split('      /*')[0]).replace('__CPROVER_return_value', 'r')
+                e2 = re.sub(r'\b(\w+) == old_\1', r'(void *)\1 == old_\1', e2)
+                h.append('  __CPROVER_assert(%s, "%s");' % (e2, e2.replace('"', "'")))
+            h += ['  VERIF_CANARY', '}']
+            p = ['@proof fwd.' + f.impl[:-2], '@object-bits 10', '@body ' + ' '.join([f.impl] + body), '@harness'] + h + ['@end']
+            proofs.append('\n'.join(p)); continue
         c.append('  __CPROVER_assigns(%s)' % ', '.join(assigns))
         for e in ens: c.append('  __CPROVER_ensures(%s)' % e)
         c.append('@end')
